@@ -17,7 +17,7 @@ def _digest_node(values, explicit=False):
     return node
 
 
-def _folder_record(specs, data, password):
+def _folder_record(specs, data, password, record_order=None, bind_order=None):
     """Run data through the coders (encoding order); return (packed, folder node, unpack sizes in record order)."""
     cs, sizes = [], []
     for spec in specs:
@@ -28,10 +28,22 @@ def _folder_record(specs, data, password):
         if props is not None:
             c["propsize"], c["props"] = len(props), props.hex()
         cs.append(c)
-    cs.reverse()  # record order = decoding order, starting at the coder that consumes the packed stream
+    cs.reverse()  # decoding order, starting at the coder that consumes the packed stream
     sizes.reverse()
-    node = {"numcoders": len(cs), "coders": cs, "bindpairs": [[i + 1, i] for i in range(len(cs) - 1)], "packed": []}
-    return data, node, sizes
+    n = len(cs)
+    # record_order[j] = record position of the j-th coder of the decoding chain (default: positional);
+    # bind_order = order in which the n-1 bind pairs are written.  The bind pairs, not the positions, define the chain.
+    pos = list(record_order) if record_order is not None else list(range(n))
+    if sorted(pos) != list(range(n)):
+        raise ValueError("record_order must be a permutation of 0..%d" % (n - 1))
+    rec, rsz = [None] * n, [None] * n
+    for j in range(n):
+        rec[pos[j]], rsz[pos[j]] = cs[j], sizes[j]
+    pairs = [[pos[j + 1], pos[j]] for j in range(n - 1)]
+    if bind_order is not None:
+        pairs = [pairs[k] for k in bind_order]
+    node = {"numcoders": n, "coders": rec, "bindpairs": pairs, "packed": []}
+    return data, node, rsz
 
 
 def _streams(t, packpos, packed, fnodes, fsizes, fcrcs, packcrc, sub_items):
@@ -86,7 +98,8 @@ def write_archive(layout: dict):
         part = datas[k:k + n]
         k += n
         plain = b"".join(part)
-        p, node, sizes = _folder_record(fo.get("coders", [{"id": "lzma2"}]), plain, password)
+        p, node, sizes = _folder_record(fo.get("coders", [{"id": "lzma2"}]), plain, password,
+                                        fo.get("record_order"), fo.get("bind_order"))
         packed.append(p)
         fnodes.append(node)
         fsizes.append(sizes)
